@@ -96,6 +96,21 @@ def r_esi(ctx, view, only_types=None, key_floor=5):
                     continue
                 seen_f = set()
                 for g in prog.family(m.key):
+                    # `self`, and the copies / reborrows of it that an inlined helper method received as its own `self`
+                    selfs = {1}
+                    if not g.is_closure:
+                        for L in range(2, len(g.locals)):
+                            if g.locals[L]["arg"] or len(g.defs.get(L, [])) != 1:
+                                continue
+                            try:
+                                tL = view.vp.operand(g, {"k": "copy", "place": {"local": L, "proj": [], "ty": g.locals[L]["ty"]["s"]}})
+                            except Exception:
+                                continue
+                            tL = strip(tL)
+                            while isinstance(tL, tuple) and tL and tL[0] in ("ref", "deref", "rawref"):
+                                tL = strip(tL[1])
+                            if isinstance(tL, tuple) and tL and tL[0] == "param" and tL[2] == 1:
+                                selfs.add(L)
                     for b in g.blocks:
                         if b["cleanup"]:
                             continue
@@ -103,7 +118,7 @@ def r_esi(ctx, view, only_types=None, key_floor=5):
                         while stack:
                             x = stack.pop()
                             if isinstance(x, dict):
-                                if "local" in x and "proj" in x and x["local"] == 1 and not g.is_closure:
+                                if "local" in x and "proj" in x and x["local"] in selfs and not g.is_closure:
                                     for e in x["proj"]:
                                         if e.get("k") == "field" and e.get("name"):
                                             seen_f.add(e["name"])
@@ -540,10 +555,29 @@ def cursor_read(f, o, bb):
         pr = pl["proj"]
         if pl["local"] == 1 and len(pr) == 2 and pr[0]["k"] == "deref" and pr[1]["k"] == "field":
             return pr[1].get("name"), d, (bb, pos)
-        if pr and not (len(pr) == 1 and pr[0]["k"] == "field" and pr[0].get("i") == 0):
+        if pr and not (len(pr) == 1 and pr[0]["k"] == "field" and pr[0].get("i") == 0) and not (
+                len(pr) == 2 and pr[0]["k"] == "downcast" and pr[0].get("name") in ("Some", "Continue") and pr[1]["k"] == "field" and pr[1].get("i") == 0):
             return None
         ds = f.defs.get(pl["local"], [])
-        if len(ds) != 1 or ds[0][0] != "stmt" or f.locals[pl["local"]]["arg"]:
+        if len(ds) != 1 or f.locals[pl["local"]]["arg"]:
+            return None
+        if ds[0][0] == "call":
+            # `k.checked_sub(1)?` / `match k.checked_sub(1) { Some(v) => .. }`: the success payload is k - 1
+            ct = ds[0][2]
+            fu = ct.get("func") or {}
+            bb, pos = ds[0][1], 10 ** 6
+            if fu.get("key") == "std::ops::Try::branch" and len(ct["args"]) == 1:
+                o = ct["args"][0]
+                continue
+            if fu.get("key") in ("usize::checked_sub", "usize::checked_add") and len(ct["args"]) == 2 and ct["args"][1]["k"] == "const":
+                from .core import const_int as _ci
+                if _ci(("const", ct["args"][1]["s"])) != 1 or d != 0:
+                    return None
+                d = -1 if fu["name"] == "checked_sub" else 1
+                o = ct["args"][0]
+                continue
+            return None
+        if ds[0][0] != "stmt":
             return None
         st = ds[0]
         rv = st[3]["rv"]
